@@ -35,6 +35,7 @@ type Case struct {
 	DataCoq   string // Gallina [data] term when the input is a provider or a factory
 	FEChecked bool   // the cross-front-end oracle applied
 	FEDiff    string // ... and what it found
+	SkipModel bool   // the case ran under a configuration the model is not given (a user-edited language map): model-free oracles only
 	Sanitize  string // what Issues.SanitizeMap / SanitizeList got wrong for this result
 	FEPure    string // the request was modified by Parse / a second Parse of it differs
 	FENested  bool   // ... in a schema with a nested struct read from a flat source (the recorded finding)
